@@ -5,6 +5,7 @@
    point) to all call trees and histories. *)
 From Coq Require Import List.
 From LF Require Import Conc.FpEnv.
+From LF Require Gen.IntervalEnv_gen Conc.FpEnvOps.
 
 Theorem C12_env_preserved :
   forall (prim : Type) (eff : prim -> fpenv -> fpenv) (history : list (call prim)),
@@ -17,5 +18,33 @@ Theorem C12_leak_propagates :
     eff p e <> e -> exec prim eff (Seq prim (Skip prim) (Prim prim p)) e <> e.
 Proof. exact leak_propagates. Qed.
 
+(* THE OPERATIONS OF THE CLASS Interval, FROM THE SOURCE.  translate/gen_fpenv.py re-reads interval.hpp on every run and lists,
+   for every control-flow path through every operation (both arms of every ?: and if, every case of mod's switch with its
+   fall-through, up to the path's return), the calls of Boost interval primitives, `std::fegetround` saves and `std::fesetround`
+   restores in execution order (Gen/IntervalEnv_gen.v).  Boost's primitives restore the mode themselves (policy save_state)
+   except those in [FpEnvOps.leaky] - nth_root, observed - which may leave ANY mode behind.  Every path of every operation
+   returns with the rounding mode it was entered with: *)
+Module IntervalOps.
+Import IntervalEnv_gen FpEnvOps.
+Theorem C12_interval_ops_restore_mode :
+  forall op p, In (op, p) all_paths ->
+  forall (mode : Type) (leak : String.string -> mode -> mode) (m : mode), run_path mode leak m p = m.
+Proof. exact interval_ops_restore_mode. Qed.
+
+(* [paths_nonvacuous] (Conc/FpEnvOps.v): the table has >= 25 operations and >= 30 paths, nth_root's only path is
+   [EvSave; EvPrim "nth_root"; EvRestore], and some path contains a leaky primitive *)
+Theorem C12_interval_paths_nonvacuous : paths_nonvacuous.
+Proof. exact interval_paths_nonvacuous. Qed.
+
+(* [unbracketed_leaks_stmt]: the save / restore bracket is needed - without the restore (the code before the repair), with the
+   path ending between the call and the restore, or with the bracket after the call, [path_ok] fails and the caller is left
+   in whatever mode the primitive left *)
+Theorem C12_unbracketed_leaks : unbracketed_leaks_stmt.
+Proof. exact unbracketed_leaks. Qed.
+End IntervalOps.
+
 Print Assumptions C12_env_preserved.
+Print Assumptions IntervalOps.C12_interval_ops_restore_mode.
+Print Assumptions IntervalOps.C12_interval_paths_nonvacuous.
+Print Assumptions IntervalOps.C12_unbracketed_leaks.
 Print Assumptions C12_leak_propagates.
